@@ -375,6 +375,12 @@ type stS3 struct {
 	BETA    scn.T2
 }
 
+type stS9 struct {
+	Alpha     scn.T1
+	am.Struct // the marker is not the first field
+	Beta      scn.T2
+}
+
 type stS4 struct {
 	am.Struct
 	scn.T1 // an embedded exported type is an ordinary field named after the type
@@ -407,6 +413,8 @@ func obsC14(raw json.RawMessage) map[string]interface{} {
 		fn = func(selfPtr) {}
 	case "S6":
 		fn = func(selfQ, scn.T1) selfR { return nil }
+	case "S9":
+		fn = func(stS9) {}
 	case "S7":
 		fn = func(stBundle) {}
 	case "S8":
